@@ -85,6 +85,9 @@ def judge(chk, res, tier, seed, replaying=False):
                              "under_a_proved_lemma": st.get("actions_under_a_proved_sim_lemma"),
                              "judged_migrations": st.get("judged_migrations"),
                              "migrations_proved_as_a_whole(C04_Sim_plan_proved_kinds)": st.get("migrations_fully_under_sim_lemmas"),
+                             "pending_set_invariant": {"migrations_not_whole_by_Sim_plan": st.get("not_whole_by_Sim_plan"),
+                                                       "of_which_proved_by_C04_SimP_plan_equiv": st.get("whole_by_SimP_plan_equiv"),
+                                                       "of_which_only_by_C04_SimP_plan_checked": st.get("whole_by_SimP_plan_checked_only")},
                              "proved_kinds": "all 13 action kinds under decidable hypotheses (sim_proved_for); not covered: the known-finding classes, and AddColumn with an inline constraint + its later AddConstraint"}}
     chk.cov["not_judged"] = dict(skipped)
     # open findings: the stored witness must still fail on the implementation and be explained by its own class
